@@ -69,7 +69,7 @@ THEOREMS = [
         "string_lines header_roundtrip_ascii file_roundtrip_ascii decOf_zero ascii_entry_spec sci_mantissa_digits "
         "ascii_value_half_unit field_roundtrip "
         "write_domain recLen_spec file_roundtrip_binary_domain file_roundtrip_bytes_domain sparse_auto_rule storedIdx_spec "
-        "coo_view_correct write_sparse_eq_write_dense denseMat_entry sparse_input_reclen_wraps ensure_2d_shapes "
+        "coo_view_correct write_sparse_eq_write_dense denseMat_entry ensure_2d_shapes "
         "vector_input_is_row write_input_normalised plumb_spec write_replaces_file read_back_bits read_back_bits_subnormal "
         "read_back_bits_finite read_back_needs_17 dir_matches_load_ascii sparse_views_ascii"
     ).split()
@@ -117,8 +117,7 @@ ASSUMPTIONS = [
     "ASCII reader model: no carriage returns, no underscores / inf / nan in numbers, announced perline and numlen "
     ">= 1, no negative row / column / length fields (the model answers `reject`; the harness never produces them)",
     "scipy.sparse inputs: double precision values in the duplicate-summing model (float32 / integer sparse inputs are "
-    "tied without duplicates), at most 8 stored values per position (numpy sums longer runs pairwise), int32 index "
-    "arrays (scipy's default); write arguments: a python list as a mapping value means (matrix, form) and a python list "
+    "tied without duplicates), at most 8 stored values per position (numpy sums longer runs pairwise); write arguments: a python list as a mapping value means (matrix, form) and a python list "
     "as `matrices` means a list of matrices (documented), so nested lists are matrices only inside a list of matrices",
 ]
 PARTIAL = (
@@ -134,10 +133,7 @@ PARTIAL = (
     "(autoForm, np.allclose as a parameter) is a model definition checked by correspondence, no theorem; (4) "
     "read_back_bits is per field ((pyFloat? (fmtE d b)).map decBits = some b for every finite double, digits 16..5000): "
     "the file-level statement follows entry by entry from file_roundtrip_ascii + ascii_entry_spec but is not restated; "
-    "complex elements of the sparse read additionally pass through re + 1j*im (cooEntry); (5) a scipy.sparse input in "
-    "the binary dense layout whose column record reaches 2 GiB wraps its int32 record length (finding F49, "
-    "sparse_input_reclen_wraps): write_sparse_eq_write_dense excludes it by hypothesis, the reader on such a file is not "
-    "modelled; (6) dir / load on ASCII variants the writer never produces and files with carriage returns are outside "
+    "complex elements of the sparse read additionally pass through re + 1j*im (cooEntry); (5) dir / load on ASCII variants the writer never produces and files with carriage returns are outside "
     "(C11); the ASCII writer's ValueError above 99 999 999 rows is not modelled"
 )
 MANIFEST = {
@@ -173,7 +169,10 @@ MANIFEST = {
     "duplicates, explicit zeros, unsorted indices). Library behaviour is modelled by what it computes and checked by "
     "correspondence only: sp.find / tocoo / toarray (summation order of duplicates), astype, np.allclose (automatic "
     "form), struct, '%E', int(), float(). Finding "
-    "F49 (int32 wrap of a 2 GiB dense record of a sparse input) is reproduced by the oracle in the thorough tier only. "
+    "F49 (int32 wrap of the 2 GiB dense record of a sparse input) is repaired in /repo and the model follows the repaired "
+    "code (the sparse path refuses where the ndarray path refuses: write_sparse_eq_write_dense has no size hypothesis); "
+    "the regression is guarded by the oracle: _oracle_f49_quick in every run (the inner binary writer on a file object "
+    "that stops after the column header: no large memory), _oracle_f49 (the full 2 GiB write, then dir) in the thorough tier. "
     "Trusted: Lean kernel; propext, Classical.choice, Quot.sound; the Python harness; CPython / numpy / scipy as listed.",
     "technique": "Lean 4 proof (induction over lines/strings/columns/matrices, omega on the packed header, bisection "
     "invariant for the %E exponent, rational arithmetic for the half-unit bound and for round-to-nearest of a decimal "
@@ -2045,6 +2044,52 @@ def _oracle_f49(ctx, op4, sc):
         os.path.exists(p) and os.remove(p)
 
 
+class _StopWrite(Exception):
+    pass
+
+
+def _oracle_f49_quick(ctx, op4):
+    """the cheap guard of F49: the dense-layout column record of a scipy.sparse input (int32 index arrays) spanning
+    2**28 - 1 rows, handed to the binary writer with a file object that looks at the column header and stops the write
+    before any value is packed (so neither 9 GB of memory nor a 2 GiB file are needed).  The repaired code never gets
+    that far: struct.pack refuses the record length, as for an ndarray.  Uses OP4._write_binary / _ensure_2d_dp
+    directly; if they are not there or do not take these arguments the guard is skipped, never failed."""
+    n = 2 ** 28 - 1
+    A = sp.coo_matrix((np.array([1.0, 2.0]), (np.array([0, n - 1], dtype=np.int32), np.array([0, 0], dtype=np.int32))), shape=(n, 1))
+    seen = []
+
+    class _F:
+        def write(self, b):
+            seen.append(bytes(b))
+            if len(seen) >= 2:
+                raise _StopWrite()
+            return len(b)
+
+    ctx.count("oracle:f49-quick-guard")
+    try:
+        mat = op4._ensure_2d_dp(A)
+        with warnings.catch_warnings():
+            warnings.simplefilter("ignore")
+            op4.OP4()._write_binary(_F(), "a", mat, "<", 2)
+        ctx.skip("F49 quick guard: the writer returned without a second write")
+    except (struct.error, OverflowError):
+        return  # refused like the ndarray path
+    except _StopWrite:
+        rec = seen[1]
+        reclen = struct.unpack("<i", rec[:4])[0] if len(rec) >= 4 else None
+        if reclen != 3 * 4 + n * 8:
+            ctx.fail(FIXED_F49, "binary dense-layout write of a scipy.sparse input whose column record is >= 2 GiB: the record "
+                     "length is computed in numpy int32 arithmetic and wraps",
+                     {"input": "scipy.sparse.coo_matrix(([1.0, 2.0], ([0, 2**28 - 2], [0, 0])), shape=(2**28 - 1, 1))",
+                      "call": "OP4()._write_binary(f, 'a', _ensure_2d_dp(A), '<', 2), stopped after the column header"},
+                     "column header announces record length %r" % (reclen,), "struct.error like the ndarray path")
+            ctx.extra["unknown_failures"] = ctx.extra.get("unknown_failures", 0) + 1
+    except MemoryError:
+        ctx.skip("F49 quick guard: MemoryError")
+    except (AttributeError, TypeError) as e:
+        ctx.skip("F49 quick guard: inner writer interface changed (%s)" % type(e).__name__)
+
+
 def _valid_names(rng, case):
     case["names"] = [_gen_name(rng, valid_only=True) for _ in case["names"]]
     if len(case["names"]) > 1 and rng.random() < 0.3:
@@ -2164,6 +2209,7 @@ def search(ctx, hints):
             pass
         # F49: a sparse input in the dense layout whose column record reaches 2 GiB (needs ~9 GB of memory and a
         # 2 GiB scratch file: thorough tier only, and only when the machine has the room)
+        _oracle_f49_quick(ctx, op4)
         if ctx.thorough:
             _oracle_f49(ctx, op4, sc)
         # ASCII variant files (reader only)
@@ -2194,7 +2240,10 @@ def replay(ctx, data):
         sc = _Scratch()
         try:
             before = len(ctx.failures)
-            _oracle_f49(ctx, op4, sc)
+            if "stopped after the column header" in str(j.get("call", "")):
+                _oracle_f49_quick(ctx, op4)
+            else:
+                _oracle_f49(ctx, op4, sc)
             return dict(ctx.failures[-1]) if len(ctx.failures) > before else None
         finally:
             sc.close()
